@@ -289,8 +289,8 @@ def tIdentify : List FileTable := [
         (.notAPanic "HashMap::insert") "hm_translation = HashMap::new()"
     ]⟩,
     ⟨"identify_reference_space_group", 195245217465983, [
-      ex .div "prim_mag_operations . len ( ) % prim_xsg . len ( )" 1 (.knownFinding "panic:magnetic_space_group.rs:identify_reference_space_group:div-zero")
-        "FIRES (found by the exploration of checks/c08.py): PrimitiveMagneticSymmetrySearch::new returns an EMPTY operation list when no candidate passes solve_correspondence at the (non-rough) symprec - e.g. atoms of different species closer than symprec - since check_closure of an empty list is vacuously true; then prim_xsg is empty and `% 0` panics (remainder with a divisor of zero)",
+      ex .div "prim_mag_operations . len ( ) % prim_xsg . len ( )" 1 (.checkedByGuard "if prim_xsg.is_empty() || fsg.is_empty() { return None; }")
+        "the guard added by the fix (fix5) returns before the remainder is taken; PrimitiveMagneticSymmetrySearch::new also refuses an empty operation list now",
       ex .div "prim_mag_operations . len ( ) % fsg . len ( )" 1 (.checkedByGuard "prim_mag_operations.len() % prim_xsg.len() evaluated first (short-circuit ||)")
         "fsg receives the first element of prim_mag_operations unconditionally, so it is non-empty whenever prim_mag_operations is; for an empty list the left operand of || has already panicked (same finding)",
       ex .div "prim_mag_operations . len ( ) / prim_xsg . len ( )" 2 (.checkedByGuard "prim_mag_operations.len() % prim_xsg.len() evaluated first")
